@@ -108,6 +108,11 @@ func (t *Trie) GetRangeProof(leftKey, rightKey *felt.Felt, proofSet *ProofNodeSe
 //   - The path bits don't match the key bits
 //   - The proof ends before processing all key bits
 func VerifyProof(root, key *felt.Felt, proof *ProofNodeSet, hash crypto.HashFn) (felt.Felt, error) {
+	// The empty trie has a zero root and an empty proof: every key is absent
+	if root.IsZero() {
+		return felt.Zero, nil
+	}
+
 	keyBits := new(Path).SetFelt(contractClassTrieHeight, key)
 	expected := *root
 	h := newHasher(hash, false)
